@@ -342,6 +342,25 @@ def check(prog, res, tier):
     res.add(runs_i.judge('C17.b', f'ipm_info: < 24 bytes, first length > {MAX}, unconfigured bitmap bit -> invalid with a reason; otherwise '
                                   f'valid with isBlocked/encoding from the sample', func_where(ifi), 'ipm_info validity ladder', chk_i))
 
+    # ---- C17.b where the maximum comes from: the configuration as it is when the file is inspected
+    obm = Ob('C17.b', 'the maximum first-record length is read from the configuration when ipm_info runs (not frozen at import)',
+             func_where(ifi), "config.config.get('MAX_VBS_RECORD_LENGTH', 6000)", rule='C17.b.config')
+    looks = []
+    for p in runs_i.inv:
+        for e in p.events:
+            if e.kind == 'method' and e.data['name'] == 'get' and e.data['args'] and p.interp.py_key(e.data['args'][0]) == 'MAX_VBS_RECORD_LENGTH':
+                looks.append(bool(e.data.get('def_time')))
+    if not looks:
+        obm.verdict, obm.detail = UNDECIDED, 'configuration lookup not observed'
+    elif any(looks):
+        obm.verdict = REFUTED
+        obm.detail = ('the maximum is looked up in a parameter default, i.e. once when the module is imported: after the configured '
+                      'maximum changes, writer files are misjudged')
+        obm.witness = {'lookup': 'def-time'}
+    else:
+        obm.verdict, obm.detail = PROVED, f'looked up inside ipm_info on {len(looks)} path visits'
+    res.add(obm)
+
     # ---- C17.c bitmap_check numbering
     mfi = prog.func('mciipm.bitmap_check')
 
